@@ -559,6 +559,16 @@ def execute(case, mon):
                 if out2 is not None:
                     soft.run(_cmp, mon, "blindness", out2, out, c_eq, dtype,
                              masked_key_positions=int((~kept_k).sum()), masked_value_positions=int((~kept_v).sum()))
+                if not multi and not bool(kept_k.all()):
+                    # keys at masked positions that are finite but at the very edge of the type: their scores
+                    # overflow (or mix infinities into NaN) - and must still not matter
+                    big = torch.finfo(k.dtype).max
+                    sgn = torch.where(torch.rand(k.shape, generator=g) < 0.5, -1.0, 1.0).to(k.dtype)
+                    k5 = torch.where(kept_k.unsqueeze(-1), k, sgn * big)
+                    out5 = soft.run(_call, mon, mod, q, k5, v, mask, name + "(extreme masked keys)")
+                    if out5 is not None:
+                        soft.run(_cmp, mon, "blindness-extreme-keys", out5, out, c_eq, dtype,
+                                 masked_key_positions=int((~kept_k).sum()))
             else:
                 mon.stat("blindness-not-applicable(no key/value position masked for all queries)")
         else:
